@@ -68,7 +68,8 @@ def run_case(spec, ctx):
     sig = '|'.join('%s=%s' % (k, f[k]) for k in sorted(f) if k not in ('spell',))
     res['sig'] = sig
     if res.get('not_optimal') and res['status'] in ('skip', 'violation'):
-        if mode == 'pinned' and (res['status'] == 'violation' or res.get('definitive')):
+        if mode == 'pinned' and (res['status'] == 'violation' or res.get('definitive')) \
+                and abs(spec['expected']) <= 1e3:
             # a pinned model is feasible and bounded by construction
             return {'status': 'violation', 'mechanism': 'pinned_status:' + spec['pin']['atom'],
                     'detail': {'what': 'pinned encoding model not solved', 'reason': res['reason'],
